@@ -476,3 +476,5 @@ HARNESSES.append(Harness(name="H02-same-instant", scenario=h02_same_instant,
 
 from engine.harness import borrowed  # noqa: E402
 HARNESSES.append(borrowed("c16", "H16-redis-chain", "H02-redis-chain"))   # retries over Redis deliveries: requeue while budget remains, refusal/nack after
+HARNESSES.append(borrowed("c08", "H08-bind", "H02-argument-binding"))            # a payload that cannot be bound fails the execution: retry/nack, never ack
+HARNESSES.append(borrowed("c16", "H16-eager-order", "H02-eager-order"))          # nothing more after an eager response, also when the actor handles Exception around it
